@@ -12,6 +12,9 @@ for d in sorted(glob.glob(os.path.join(ROOT, "seeded", "*_m*"))):
     checks = {}
     for f in sorted(glob.glob(os.path.join(d, "check_*.json")), key=os.path.getmtime):
         checks.update(json.load(open(f)))
+    if os.path.exists(os.path.join(d, "final.json")):
+        fin = json.load(open(os.path.join(d, "final.json")))
+        checks = {k: v for k, v in fin.items() if isinstance(v, dict) and "rc" in v} or checks
     meta["lead_confirmation"] = {
         "how": "tools/seed_eval.py confirm: scratch copy of /repo + patch: go build, full suite (Test_syncHead and the sleep-based store tests are load-sensitive; a failure of those alone on the busy machine is not counted), demo with patch, demo without patch",
         "suite_passes_with_patch": conf.get("suite_passes_with_patch"),
